@@ -52,7 +52,10 @@ def verify_one(args):
         solve.THOROUGH = thorough
         reg = load_all()
         con = reg[qual]
-        res = C.verify(con, reg, initial=initial)
+        if qual.startswith("body:"):
+            res = C.verify_body(con, reg, initial=initial)
+        else:
+            res = C.verify(con, reg, initial=initial)
         obls = []
         for o in res.obls:
             obls.append({"name": o.name, "verdict": o.verdict, "backend": o.backend, "ms": o.ms, "kind": o.kind,
